@@ -263,7 +263,7 @@ def run_shard(prop, tier, seed, shard, nshards, out):
         for k, v in gen.WARM_STATS.items():
             if v:
                 ctx.counters["trees_" + k] += v
-        for stats in ("NESTED_STATS", "RENAMED_STATS"):
+        for stats in ("NESTED_STATS", "RENAMED_STATS", "HOSTILE_STATS"):
             for k, v in getattr(gen, stats, {}).items():
                 if v:
                     ctx.counters[k] += v
